@@ -18,7 +18,7 @@ RULE = ("case = (zone, local now, day mask, start minute); grid: 7 current weekd
         "over {00:00,00:01,06:30,12:00,12:01,23:58,23:59}^2 plus (t,t-1),(t,t),(t,t+1) x seconds {0,30,59} x zones. "
         "Non-trivial = today selected and its time passed, or local weekday != UTC weekday, or >= 2 days selected; "
         "distinct by (zone, weekday, now, mask, start)."
-        ' Also: 8 clock readings around midnight on the day before/of/after every UTC-offset change 2023-2025 of 6 zones (dst-midnight), clocks a fraction of a second before/after the start minute (subsecond), and the same record listed twice at two moments (repoll).')
+        ' Also: 8 clock readings around midnight on the day before/of/after every UTC-offset change 2023-2025 of 6 zones (dst-midnight), clocks a fraction of a second before/after the start minute (subsecond), the same record listed twice at two moments (repoll), and two or three readings less than a second apart that straddle the start minute or local midnight (quick-succession, enumerated over 4 zones x 4 dates x 5 day sets x 8 start times).')
 ASSUMPTIONS = [
     "time_machine virtual clock + zone; 'still ahead' means start minute > current minute (a start equal to the current minute is not ahead)",
     "the text is matched case-insensitively for the tokens 'today', 'tomorrow', 'next <Weekday>' and the HH:MM start time",
@@ -186,6 +186,43 @@ def body_repoll(rep, case):
         first = False
 
 
+def body_succession(rep, case):
+    """Two readings less than a second apart that straddle the start minute or local midnight: each text must be right for
+    its own instant (a clock reading that is reused for "about a second" is a day or a week off here)."""
+    Days, tools = _lib()
+    zname, mask, start_min = case["zone"], case["mask"], case["start"]
+    days = {x for x in Days if mask & x.bit_rep}
+    start = hhmm(start_min)
+    for k, now in enumerate(case["instants"]):
+        y, mo, d, h, mi, s, micro = now
+        with vclock.frozen(zname, y, mo, d, h, mi, s, micro=micro):
+            weekday = dt.date(y, mo, d).weekday()
+            token = expected_token(weekday, h * 60 + mi, mask, start_min)
+            rep.tick("quick-succession", key=(zname, tuple(now), mask, start_min), nontrivial=k > 0, sample=case if k else None,
+                     labels=(case["what"],))
+            text = tools.pretty_next_run(start, days)
+            judge(text, token, start, mask, dict(case, failing_instant=k), "C13/quick-succession/" + case["what"])
+
+
+def cases_succession():
+    out = []
+    for zname in ("UTC", "Asia/Jerusalem", "America/New_York", "Pacific/Kiritimati"):
+        for (y, mo, d) in ((2024, 1, 15), (2024, 1, 14), (2024, 3, 31), (2024, 11, 3)):
+            wd = dt.date(y, mo, d).weekday()
+            today, tomorrow = 1 << (wd + 1), 1 << ((wd + 1) % 7 + 1)
+            nxt = dt.date(y, mo, d) + dt.timedelta(days=1)
+            for mask in (today, today | tomorrow, 0xFE, tomorrow, today | (1 << ((wd + 3) % 7 + 1))):
+                for start_min in (1, 390, 720, 1020, 1439):
+                    h, mi = divmod(start_min - 1, 60)
+                    out.append({"zone": zname, "mask": mask, "start": start_min, "what": "across-the-start-minute",
+                                "instants": [[y, mo, d, h, mi, 59, 600_000], [y, mo, d, start_min // 60, start_min % 60, 0, 300_000],
+                                             [y, mo, d, start_min // 60, start_min % 60, 0, 900_000]]})
+                for start_min in (0, 390, 1020):
+                    out.append({"zone": zname, "mask": mask, "start": start_min, "what": "across-midnight",
+                                "instants": [[y, mo, d, 23, 59, 59, 600_000], [nxt.year, nxt.month, nxt.day, 0, 0, 0, 300_000]]})
+    return out
+
+
 def strat_repoll():
     def mk(z, day, s1, gap_min, mask, start, bad):
         t1 = dt.datetime(day.year, day.month, day.day) + dt.timedelta(seconds=s1)
@@ -275,5 +312,6 @@ def subchecks(tier):
         Sub("dst-midnight", body_dst_midnight, cases=cases_dst_midnight(tier), shards=16, exhaustive=True),
         Sub("subsecond", lambda rep, case: body(rep, case, "subsecond"), strategy=strat_subsecond, n=60_000 if big else 1500,
             shards=8 if big else 2),
+        Sub("quick-succession", body_succession, cases=cases_succession, shards=4, exhaustive=True),
         Sub("repoll", body_repoll, strategy=strat_repoll, n=100_000 if big else 2500, shards=16 if big else 4),
     ]
